@@ -291,10 +291,20 @@ where
 {
 	wallet_lock!(wallet_inst, w);
 
+	let parent_key_id = output.key_id.parent_path();
+	// the list of missing outputs was computed before this lock was taken; if the output
+	// has been restored in the meantime (e.g. by a concurrent update) don't log it twice
+	if w.get(&output.key_id, &Some(output.mmr_index)).is_ok() {
+		let max_child_index = *found_parents.get(&parent_key_id).unwrap_or(&0);
+		if output.n_child >= max_child_index {
+			found_parents.insert(parent_key_id, output.n_child);
+		}
+		return Ok(());
+	}
+
 	let commit = w.calc_commit_for_cache(keychain_mask, output.value, &output.key_id)?;
 	let mut batch = w.batch(keychain_mask)?;
 
-	let parent_key_id = output.key_id.parent_path();
 	if !found_parents.contains_key(&parent_key_id) {
 		found_parents.insert(parent_key_id.clone(), 0);
 		if let Some(ref mut s) = tx_stats {
